@@ -913,6 +913,73 @@ __xml_namespace__ = "https://dummy.com"
 ''',
     ),
     (
+        "targeted/interpolated-strings-with-literal-brackets",
+        '''\
+from typing import List, Optional
+
+from icontract import invariant, DBC
+
+from aas_core_meta.marker import verification
+
+
+@verification
+def brackets_add_two(name: str) -> bool:
+    """Check the length of the name in curly brackets."""
+    return len(f"{{{name}}}") == len(name) + 2
+
+
+@verification
+def is_wrapped(text: str, name: str) -> bool:
+    """Check that the text is the name in curly brackets."""
+    return text == f"{{{name}}}"
+
+
+@invariant(
+    lambda self: self.shell_reference == f"${{{self.name}}}",
+    "Shell reference must refer to the name.",
+)
+@invariant(
+    lambda self: self.greeting != f"{{}}{self.name}-{self.name}",
+    "Greeting must not be the doubled name.",
+)
+@invariant(
+    lambda self: is_wrapped(self.wrapped, self.name),
+    "Wrapped must be the name in curly brackets.",
+)
+@invariant(
+    lambda self: len(f"${{{self.name}}}") == len(self.name) + 3,
+    "Three characters around the name.",
+)
+@invariant(
+    lambda self: brackets_add_two(self.name),
+    "Two brackets around the name.",
+)
+@invariant(
+    lambda self: self.quoted == f"it's '{self.name}' said \\"loud\\"",
+    "Quoted must quote the name.",
+)
+class Something(DBC):
+    name: str
+    shell_reference: str
+    greeting: str
+    wrapped: str
+    quoted: str
+
+    def __init__(
+        self, name: str, shell_reference: str, greeting: str, wrapped: str, quoted: str
+    ) -> None:
+        self.name = name
+        self.shell_reference = shell_reference
+        self.greeting = greeting
+        self.wrapped = wrapped
+        self.quoted = quoted
+
+
+__version__ = "dummy"
+__xml_namespace__ = "https://dummy.com"
+''',
+    ),
+    (
         "targeted/grouping-of-boolean-and-arithmetic",
         '''\
 from typing import List, Optional
